@@ -1,20 +1,26 @@
-"""C19: the argument checks of every blas.c wrapper are regenerated into Lean (Gen/BlasWrap.lean) and the theorem
-`accept -> footprint inside the buffers` is re-proved per routine (Gen/C19Safe_*.lean, statements from footprints.py);
+"""C19: the argument checks of every blas.c and lapack.c wrapper are regenerated into Lean (Gen/BlasWrap.lean, Gen/LapackWrap.lean) and the
+theorem `accept -> footprint inside the buffers` is re-proved per routine (Gen/C19Safe_*.lean, Gen/C19SafeL_*.lean; statements from
+footprints.py and footprints_lapack.py); the LAPACK part of the correspondence lives in c19_lapack.py;
 the generated decision is compared with the real wrappers on boundary boxes (worker subprocess, crash-safe), and the
 C-int (wrap-around) evaluation of the same checks is searched for accepted tuples whose footprint leaves the buffer."""
 import os, sys, json, random, subprocess, itertools
 import vlib
 sys.path.insert(0, os.path.join(vlib.VERIF, 'tools', 'translate'))
 
-LEAN_TARGETS = ['CvxVerif.Gen.C19Safe', 'CvxVerif.Props.C19']
-MODEL_FILES = ['CvxVerif.Model.CWrap', 'CvxVerif.Gen.BlasWrap']
+LEAN_TARGETS = ['CvxVerif.Gen.C19Safe', 'CvxVerif.Gen.C19SafeL', 'CvxVerif.Props.C19']
+MODEL_FILES = ['CvxVerif.Model.CWrap', 'CvxVerif.Gen.BlasWrap', 'CvxVerif.Gen.LapackWrap']
 LEVEL = 'proof'
-TRUSTED = ['translator tools/translate/cwrap2lean.py (C tokenizer/parser for the argument-checking prefix of blas.c; CPS emission; proof '
-           'scripts) -- validated by running every generated decision against the real wrapper',
-           'hand-written footprint specification tools/translate/footprints.py (what the reference BLAS routine touches)',
+TRUSTED = ['translator tools/translate/cwrap2lean.py (C tokenizer/parser for the argument-checking prefix of blas.c and lapack.c - the statements '
+           'between the argument parse and the work-space allocation / type switch; CPS emission; proof scripts) -- validated by running every '
+           'generated decision against the real wrapper',
+           'hand-written footprint specifications tools/translate/footprints.py, footprints_lapack.py (what the reference BLAS / LAPACK routine touches, '
+           'which element type it reads, which optional arguments the chosen job needs)',
            'the `switch (MAT_ID(..))` after the checks rejects typecodes other than d/z (hypothesis hsw of the theorems)']
 ASSUMPTIONS = ['theorems are in ideal (unbounded) integer arithmetic; C int overflow is searched for and exhibited, not excluded',
-               'what OpenBLAS actually touches is assumed to be the reference footprint']
+               'what OpenBLAS actually touches is assumed to be the reference footprint (its vectorised kernels read, never write, a few bytes '
+               'past their operands: the guard-page runs leave a canary zone and re-run a faulting case with a 64 KiB zone before reporting)',
+               'the argument parse itself (format string, keyword list, variable list) is outside the translated prefix: it is exercised by the '
+               'grammar-based calls (every keyword of every wrapper is supplied) and by a static arity scan']
 
 INT_CANDS = [-2, -1, 0, 1, 2, 3, 4, 5, 6, 7, 8, 12, 13]
 BIG = [2**31 - 1, 2**30, 2**31 - 2, 65537, -2**31, 2**16]
@@ -27,7 +33,8 @@ def translate(ctx):
         ctx.table = t
     except Exception as e:
         return ['cwrap2lean: %s: %s' % (type(e).__name__, e)]
-    return []
+    from corr import c19_lapack
+    return c19_lapack.translate(ctx)
 
 MATS = {'x': ('d', 7, 1), 'y': ('d', 6, 1), 'A': ('d', 3, 4), 'B': ('d', 4, 3), 'C': ('d', 3, 3)}
 
@@ -279,6 +286,15 @@ def kernel_probes(ctx, rng):
             w.close()
     os.environ.pop('CVXOPT_GUARD_UNDER', None)
     evals += index_probes(ctx, rng, gb)
+    from corr import c19_lapack
+    ar = c19_lapack.parse_arity()
+    ctx.cov['parse_arity_mismatches'] = [list(b) for b in ar]
+    for bad in ar:
+        if bad[2]: ctx.violation('c19:parse-arity:' + bad[0], bad[1] + ': the argument parser stores through an indeterminate pointer', {'where': bad[0]})
+    evals += c19_lapack.lapack_probes(ctx, rng, gb)
+    evals += c19_lapack.embed_probes(ctx, rng, gb, 'C19')
+    from corr import c19_base
+    evals += c19_base.base_probes(ctx, rng, gb, 'C19')
     return evals
 
 def index_probes(ctx, rng, gb):
